@@ -6,15 +6,16 @@ register arguments; the ND_FUNCALL arm re-classifies them while popping the regi
 into their registers, calls, and drops the stack arguments with one `add`.  The two classifications
 run with different counters (`gp++ >= GP_MAX` counts every argument, the popping loop only the
 ones it pops); the lemmas here show that they always decide alike, so that what is popped is
-exactly what was pushed — for every argument list, provided struct arguments have size ≥ 1
-(known finding C20-empty-struct-arg: an empty struct pushes nothing but pops a register).
+exactly what was pushed — for every argument list (aggregate sizes not negative).  A GNU empty
+struct (size 0) takes no register and no stack slot in either loop (/repo b298aee; before that repair
+the popping loop popped a register for it: the former known finding C20-empty-struct-arg).
 -/
 import ChibiVerif.Lemmas.C20Lemmas
 
 namespace ChibiVerif.Lemmas.C20
 open ChibiVerif ChibiVerif.Codegen ChibiVerif.Effect ChibiVerif.Asm ChibiVerif.Ast ChibiVerif.C20Scope
 
-variable {K : List Line → Int → Int → Prop} [CodePred K]
+variable {K : CodeK} [CodePred K]
 
 /-! ### what an action returns -/
 
@@ -293,7 +294,7 @@ theorem Ret_popEightbyte (f : Bool) (gp fp : Int) :
   cases f <;> simp only [Bool.false_eq_true, if_false, if_true] <;> exact Ret_seq_pure rfl
 
 theorem struct_class (env : Env) (ty : Ty)
-    {gpc fpc gpp fpp : Int} {b : Bool} {gpc' fpc' k : Int} (he : Eqv gpc fpc gpp fpp) (hs1 : 1 ≤ ty.size)
+    {gpc fpc gpp fpp : Int} {b : Bool} {gpc' fpc' k : Int} (he : Eqv gpc fpc gpp fpp) (hs1 : 0 ≤ ty.size)
     (hcr : (if ty.size > 16 then (do
         let sz ← alignTo ty.size 8
         pure (true, gpc, fpc, sz.tdiv 8) : Except String _)
@@ -311,12 +312,27 @@ theorem struct_class (env : Env) (ty : Ty)
   have hd : ((ty.size + 8 - 1).tdiv 8 * 8).tdiv 8 = (ty.size + 8 - 1).tdiv 8 := by
     rw [Int.mul_tdiv_cancel _ (by decide)]
   unfold popStruct
+  by_cases h0 : ty.size = 0
+  · -- a GNU empty struct: no register, no stack slot
+    have hcls : structInRegsE env ty gpc fpc = .ok (true, 0, 0) := by simp [structInRegsE, h0]
+    have hnb : ¬ ty.size > 16 := by omega
+    simp only [hnb, if_false, hcls, bind, Except.bind, pure, Except.pure, if_true, Except.ok.injEq,
+      Prod.mk.injEq] at hcr
+    obtain ⟨rfl, rfl, rfl, rfl⟩ := hcr
+    have hc : (decide (ty.size > 16) || ty.size == 0) = true := by simp [h0]
+    simp only [hc, if_true, h0]
+    refine ⟨by simp, (Sem_pure _).cast (by decide) rfl (by decide), Ret_pure ?_⟩
+    obtain ⟨h1, h2, h3, h4⟩ := he
+    exact ⟨by omega, by omega, by omega, by omega⟩
+  have hs1 : 1 ≤ ty.size := by omega
+  have h0b : (ty.size == 0) = false := by simpa using h0
   by_cases hbig : ty.size > 16
   · simp only [hbig, if_true, hal, bind, Except.bind, pure, Except.pure, hd, Except.ok.injEq, Prod.mk.injEq] at hcr
     obtain ⟨rfl, rfl, rfl, rfl⟩ := hcr
-    simp only [hbig, if_true]
+    simp only [hbig, decide_true, Bool.true_or, if_true]
     exact ⟨trivial, (Sem_pure _).cast (by omega) rfl (by omega), Ret_pure he⟩
-  · simp only [hbig, if_false] at hcr ⊢
+  · simp only [hbig, if_false] at hcr
+    simp only [hbig, decide_false, h0b, Bool.or_self, Bool.false_eq_true, if_false]
     cases hsr : structInRegsE env ty gpc fpc with
     | error e => simp [hsr, bind, Except.bind] at hcr
     | ok r =>
@@ -325,10 +341,10 @@ theorem struct_class (env : Env) (ty : Ty)
       -- what struct_in_regs computed
       unfold structInRegsE at hsr
       cases hcls : structClsE env ty with
-      | error e => simp [hcls] at hsr
+      | error e => simp [hcls, h0] at hsr
       | ok c =>
         obtain ⟨ngp0, nfp0⟩ := c
-        simp only [hcls, Except.ok.injEq, Prod.mk.injEq] at hsr
+        simp only [h0b, Bool.false_eq_true, if_false, hcls, Except.ok.injEq, Prod.mk.injEq] at hsr
         obtain ⟨hfits, rfl, rfl⟩ := hsr
         obtain ⟨f1, hf1, hrest⟩ := structCls_ok hcls
         have hn0 : 0 ≤ ngp0 ∧ 0 ≤ nfp0 := by
@@ -345,7 +361,7 @@ theorem struct_class (env : Env) (ty : Ty)
         -- the popping loop asks the same question with its own counters
         have hsr' : structInRegs env ty gpp fpp = liftE (.ok (fits, ngp0, nfp0)) := by
           unfold structInRegs structInRegsE
-          simp only [hcls, ← hfe, hfits]
+          simp only [h0b, Bool.false_eq_true, if_false, hcls, ← hfe, hfits]
         rw [hsr']
         show _ ∧ SemP K (liftE (Except.ok (fits, ngp0, nfp0)) >>= _) _ _ _ ∧ Ret (liftE (Except.ok (fits, ngp0, nfp0)) >>= _) _
         rw [M_liftE_ok_bind]
@@ -405,7 +421,7 @@ theorem struct_class (env : Env) (ty : Ty)
 /-- one argument: the popping loop pops exactly what `push_args2` pushed for it in the register
     pass, and the two loops' counters stay equivalent -/
 theorem popArg_spec (env : Env) (ty : Ty) {gpc fpc gpp fpp : Int} {b : Bool} {gpc' fpc' k : Int}
-    (he : Eqv gpc fpc gpp fpp) (hs : ty.isStructOrUnion = true → 1 ≤ ty.size)
+    (he : Eqv gpc fpc gpp fpp) (hs : ty.isStructOrUnion = true → 0 ≤ ty.size)
     (hc : classifyArgE env ty gpc fpc = .ok (b, gpc', fpc', k)) :
     (k = if b then slots ty else 0) ∧
     SemP K (popArg env ty gpp fpp) (8 * (if b then 0 else slots ty)) 0 (-(if b then 0 else slots ty)) ∧
@@ -448,11 +464,18 @@ theorem classifyArgE_nonneg {env : Env} {ty : Ty} {gpc fpc : Int} {b : Bool} {gp
         obtain ⟨fits, ngp, nfp⟩ := r
         simp only [hsr, bind, Except.bind] at hcr
         unfold structInRegsE at hsr
+        by_cases h0 : ty.size = 0
+        · simp only [h0, beq_self_eq_true, if_true, Except.ok.injEq, Prod.mk.injEq] at hsr
+          obtain ⟨rfl, rfl, rfl⟩ := hsr
+          simp only [if_true, pure, Except.pure, Except.ok.injEq, Prod.mk.injEq] at hcr
+          obtain ⟨_, rfl, rfl, _⟩ := hcr
+          exact ⟨by omega, by omega⟩
+        have h0b : (ty.size == 0) = false := by simpa using h0
         cases hcls : structClsE env ty with
-        | error e => simp [hcls] at hsr
+        | error e => simp [hcls, h0] at hsr
         | ok c =>
           obtain ⟨ngp0, nfp0⟩ := c
-          simp only [hcls, Except.ok.injEq, Prod.mk.injEq] at hsr
+          simp only [h0b, Bool.false_eq_true, if_false, hcls, Except.ok.injEq, Prod.mk.injEq] at hsr
           obtain ⟨_, rfl, rfl⟩ := hsr
           obtain ⟨f1, _, hrest⟩ := structCls_ok hcls
           have hn0 : 0 ≤ ngp0 ∧ 0 ≤ nfp0 := by
@@ -491,9 +514,10 @@ theorem classifyArgE_nonneg {env : Env} {ty : Ty} {gpc fpc : Int} {b : Bool} {gp
     (by_cases hg : gpc ≥ GP_MAX <;> simp only [hg, if_true, if_false, pure, Except.pure, Except.ok.injEq, Prod.mk.injEq] at hc <;>
       obtain ⟨_, rfl, rfl, _⟩ := hc <;> exact ⟨by omega, by omega⟩)
 
-/-- struct/union arguments have at least one byte (outside: known finding C20-empty-struct-arg) -/
+/-- the sizes of struct/union arguments are not negative (well-formedness of the type table; an empty
+    struct, size 0, takes no register and no stack slot since /repo b298aee) -/
 def StructArgsOK (tys : List (Option Ty)) : Prop :=
-  ∀ t, some t ∈ tys → t.isStructOrUnion = true → 1 ≤ t.size
+  ∀ t, some t ∈ tys → t.isStructOrUnion = true → 0 ≤ t.size
 
 theorem popArgs_spec (env : Env) : ∀ (args : List Arg) (gpc fpc gpp fpp stack : Int) (flags : List Bool) (st : Int),
     Eqv gpc fpc gpp fpp → StructArgsOK (args.map (·.ty)) →
@@ -523,7 +547,7 @@ theorem popArgs_spec (env : Env) : ∀ (args : List Arg) (gpc fpc gpp fpp stack 
           obtain ⟨bs, st2⟩ := r2
           simp only [hrec, Except.ok.injEq, Prod.mk.injEq] at hc
           obtain ⟨rfl, rfl⟩ := hc
-          have hs1 : ty.isStructOrUnion = true → 1 ≤ ty.size :=
+          have hs1 : ty.isStructOrUnion = true → 0 ≤ ty.size :=
             hs ty (by simp [hty])
           obtain ⟨hk, hsem, hret⟩ := popArg_spec (K := K) env ty he hs1 hca
           have hsr : StructArgsOK (rest.map (·.ty)) := fun t ht => hs t (by simp only [List.map_cons]; exact List.mem_cons_of_mem _ ht)
